@@ -110,8 +110,9 @@ def run(chk: core.Check, tier: str, seed: int) -> None:
         for q in ("$..*", "$[0]..*", "$[?count(@..*) > 0]", "$..[?@..a]", "$.a..a", "$\n..\n*"):
             recs.append(impl.rec_total(jp, q, doc))
     # regular expressions that keep a backtracking engine busy for a second or so, and then finish: slow is not an error
-    for pat, n in (("(a|a)*b", 18), ("(a|aa)*b", 24), ("(a|b|ab)*c", 20)):
-        recs.append(impl.rec_total(jp, f"$[?match(@, '{pat}')]", ["a" * n + "bc", "a" * n + "x", "ab"]))
+    # ((a|a)*b against a^22 bc: about a second of backtracking here, about 3 s for a^24)
+    for pat, n in (("(a|a)*b", 22), ("(a|a)*b", 23), ("(a|aa)*b", 30)):
+        recs.append(impl.rec_total(jp, f"$[?match(@, '{pat}')]", ["a" * n + "bc", "ab"]))
     # the nondeterministic mode is total as well
     from .. import probes  # noqa: PLC0415
     nd = probes.make_env(jp, [], [], nondeterministic=True)
